@@ -42,11 +42,16 @@ impl WalRecuperator {
     /// Run all the undo.
     pub(crate) fn run_undo(&mut self, analysis: &AnalysisResult) -> RuntimeResult<()> {
         for redo_transaction in analysis.needs_undo.iter() {
-            // Reapply all the operations of this transaction
-            for lsn in analysis.try_iter_lsn(redo_transaction).ok_or(IoError::new(
-                ErrorKind::NotSeekable,
-                "transaction not found in th write ahead analysis",
-            ))? {
+            // Take back the operations of this transaction, the last one first (undoing the
+            // insert of a row before the delete that followed it would bring the row back).
+            for lsn in analysis
+                .try_iter_lsn(redo_transaction)
+                .ok_or(IoError::new(
+                    ErrorKind::NotSeekable,
+                    "transaction not found in th write ahead analysis",
+                ))?
+                .rev()
+            {
                 if let Some(delete_operation) = analysis.delete_ops.get(&lsn) {
                     self.undo_delete(delete_operation)?;
                 }
